@@ -286,6 +286,14 @@ func ruleDoUniqueIndex(c *Ctx, r *R) {
 					}
 					return false
 				}
+				// the bound may be tested in the worker before it hands the index to a helper that calls f
+				for _, site := range di.calls {
+					for _, gd := range guardsOf(site.Block()) {
+						if cf, ok := gd.asCmp(); ok && cf.op == token.LSS && isIdxLeaf(cf.x) {
+							bounded = true
+						}
+					}
+				}
 				for _, gd := range guardsOf(call.Block()) {
 					if cf, ok := gd.asCmp(); ok && cf.x == idx && cf.op == token.LSS {
 						bounded = true
@@ -538,10 +546,15 @@ func ruleDoErrorContract(c *Ctx, r *R) {
 		}
 	})
 	for _, g := range bi.spawned {
-		instrs(g, func(b *ssa.BasicBlock, i int, in ssa.Instruction) {
-			call, ok := in.(*ssa.Call)
+		for _, di := range deepInstrs(g, 2) {
+			di := di
+			b := di.in.Block()
+			call, ok := di.in.(*ssa.Call)
 			if !ok || call.Call.IsInvoke() || len(call.Call.Args) != 2 || !isContextType(call.Call.Args[0].Type()) {
-				return
+				continue
+			}
+			if cal := staticCallee(&call.Call); cal != nil && cal.Blocks != nil && rootFn(cal) == rootFn(g) {
+				continue // a local helper of the worker (callOne(i)), not the user's function
 			}
 			// f(ctx, i)
 			os := ctxOrigins(call.Call.Args[0], map[ssa.Value]bool{})
@@ -549,37 +562,57 @@ func ruleDoErrorContract(c *Ctx, r *R) {
 			r.ok(okCtx, "parallel.DoContext|f-gets-group-ctx", call.Pos(), "f must receive the errgroup's context (cancelled on the first error), not the caller's")
 			// pre-check dominates in the same iteration
 			pre := false
-			for _, gd := range guardsOf(b) {
-				if cf, ok := gd.asCmp(); ok && cf.op == token.EQL && isNilConst(cf.y) {
-					if ec, ok := cf.x.(*ssa.Call); ok && ec.Call.IsInvoke() && ec.Call.Method.Name() == "Err" && reaches(b, gd.blk) {
-						if eo := ctxOrigins(ec.Call.Value, map[ssa.Value]bool{}); len(eo) == 1 && eo[0] == egCtx {
-							pre = true
+			blocks := []*ssa.BasicBlock{b}
+			for _, site := range di.calls {
+				blocks = append(blocks, site.Block())
+			}
+			for _, bb := range blocks {
+				for _, gd := range guardsOf(bb) {
+					if cf, ok := gd.asCmp(); ok && cf.op == token.EQL && isNilConst(cf.y) {
+						if ec, ok := cf.x.(*ssa.Call); ok && ec.Call.IsInvoke() && ec.Call.Method.Name() == "Err" && (reaches(bb, gd.blk) || bb.Parent() != g) {
+							if eo := ctxOrigins(ec.Call.Value, map[ssa.Value]bool{}); len(eo) == 1 && eo[0] == egCtx {
+								pre = true
+							}
 						}
 					}
 				}
 			}
 			r.ok(pre, "parallel.DoContext|recheck-before-call", call.Pos(), "each iteration must re-check ctx.Err() on the group context before calling f: otherwise calls keep starting after a failure")
 			// error returned unchanged
-			unchanged := false
-			if call.Referrers() != nil {
-				for _, ref := range *call.Referrers() {
-					if ret, ok := ref.(*ssa.Return); ok && ret.Results[0] == ssa.Value(call) {
-						for _, gd := range guardsOf(ret.Block()) {
-							if cf, ok := gd.asCmp(); ok && cf.x == ssa.Value(call) && cf.op == token.NEQ && isNilConst(cf.y) {
-								unchanged = true
-							}
+			// the error travels up the frames: returned under `err != nil`, or returned as it is by a helper whose caller then
+			// returns it under `err != nil`
+			var flows func(v *ssa.Call, chain []*ssa.Call) bool
+			flows = func(v *ssa.Call, chain []*ssa.Call) bool {
+				if v.Referrers() == nil {
+					return false
+				}
+				for _, ref := range *v.Referrers() {
+					ret, ok := ref.(*ssa.Return)
+					if !ok || ret.Results[0] != ssa.Value(v) {
+						continue
+					}
+					for _, gd := range guardsOf(ret.Block()) {
+						if cf, ok := gd.asCmp(); ok && cf.x == ssa.Value(v) && cf.op == token.NEQ && isNilConst(cf.y) {
+							return true
 						}
 					}
+					// handed up unconditionally: the caller decides
+					if len(chain) > 0 && flows(chain[len(chain)-1], chain[:len(chain)-1]) {
+						return true
+					}
 				}
+				return false
 			}
+			unchanged := flows(call, di.calls)
 			r.ok(unchanged, "parallel.DoContext|worker-returns-f-error", call.Pos(), "the worker must return f's non-nil error itself")
-		})
+		}
 		// the branch taken when ctx.Err() != nil returns ctx.Err(), not nil
 		nb := 0
-		instrs(g, func(b *ssa.BasicBlock, i int, in ssa.Instruction) {
-			ret, ok := in.(*ssa.Return)
-			if !ok {
-				return
+		for _, di := range deepInstrs(g, 2) {
+			b := di.in.Block()
+			ret, ok := di.in.(*ssa.Return)
+			if !ok || len(ret.Results) == 0 {
+				continue
 			}
 			for _, gd := range guardsOf(b) {
 				if gd.blk.Succs[0] != b && gd.blk.Succs[1] != b {
@@ -596,7 +629,7 @@ func ruleDoErrorContract(c *Ctx, r *R) {
 					}
 				}
 			}
-		})
+		}
 		if nb == 0 {
 			r.violated("parallel.DoContext|cancelled-worker-reports", g.Pos(), "no ctx.Err() != nil exit in the worker")
 		}
